@@ -12,6 +12,8 @@ ASSUMPTIONS = ['vf/graph.py::effect encodes the statement of C16; unspecified ca
                'indexes, position of an already-listed task on insert/append, internal order of a moved block, tie '
                'order under reverse sort, list-valued sort keys, cross-WBS adoption) are not judged']
 
+FUZZ = [('random-legal', 4000)]       # thorough tier: coverage-guided sub-run (vf/fuzz.py), runs per process x 16 processes
+
 
 def streams(tier):
     return hist_streams('C16', 'legal', 8000, 80000)
